@@ -1,7 +1,7 @@
 _D = 'AITB.Sampling.'
 SPEC = {
     'id': 'C08',
-    'lean_modules': ['AITB.Props.C08Dense', 'AITB.Props.C08Project', 'AITB.Props.C08Vose', 'AITB.Props.C08'],
+    'lean_modules': ['AITB.Props.C08Dense', 'AITB.Props.C08Project', 'AITB.Props.C08Vose', 'AITB.Props.C08', 'AITB.Props.C08Measure'],
     'theorems': [_D + t for t in [
         # dense inverse-CDF scan (sampleProbability, dense template)
         'dense_in_range', 'dense_preimage', 'dense_interval_length', 'dense_preimage_sum_one',
@@ -28,6 +28,11 @@ SPEC = {
         'vose_current_lengths', 'vose_current_alias_in_range', 'aliasMass_total',
         # the repaired constructor: full-strength correctness for every valid distribution of every length
         'vose_correct', 'vose_correct_tableOk', 'vose_fixed_lengths', 'vose_fixed_alias_in_range', 'vose_correct_isProb_in_range',
+        # the property stated literally: SelectsWithProb f j q := the draws in [0,1) mapped to j are a finite disjoint union of half-open
+        # intervals of total length q; q is unique (selects_unique)
+        'dense_cert', 'dense_selects_exact', 'dense_selects_valid', 'dense_selects_out_of_range', 'alias_cert', 'vose_selects',
+        'sparseFixed_selects', 'sparseFixed_selects_valid', 'selects_unique', 'selects_prob_unique',
+        'sampleSR_selects', 'sampleSR_reward', 'sampleSOR_obs_selects', 'sampleSOR_state', 'not_selects_current_vose', 'selects_current_vose_half',
     ]],
     'harness': 'harness/c08.cpp',
     'level': 'proof',
